@@ -219,11 +219,15 @@ func (t *stdioClientTransport) sendRequest(ctx context.Context, req *JSONRPCRequ
 	t.pendingMutex.Unlock()
 
 	// Clean up on exit.
+	// Whoever removes the entry from the table closes the channel: close() does the same for all
+	// entries still pending, so closing unconditionally here would close the channel twice.
 	defer func() {
 		t.pendingMutex.Lock()
-		delete(t.pendingRequests, reqID)
+		if _, pending := t.pendingRequests[reqID]; pending {
+			delete(t.pendingRequests, reqID)
+			close(respChan)
+		}
 		t.pendingMutex.Unlock()
-		close(respChan)
 	}()
 
 	// Send request.
@@ -237,7 +241,11 @@ func (t *stdioClientTransport) sendRequest(ctx context.Context, req *JSONRPCRequ
 
 	// Wait for response or timeout.
 	select {
-	case resp := <-respChan:
+	case resp, ok := <-respChan:
+		if !ok || resp == nil {
+			// The channel was closed by close(): there is no answer.
+			return nil, fmt.Errorf("transport closed")
+		}
 		return resp, nil
 	case <-ctx.Done():
 		return nil, ctx.Err()
